@@ -7,7 +7,8 @@
    clauses repaired by commits 3ff3f2b / 7843d1b are now positive theorems. *)
 From Coq Require Import List ZArith Bool String.
 From PySMT.core Require Import Syntax PyPrims Manager.
-From PySMT.proofs Require Import Manager_proofs.
+From PySMT.models Require Import TypeChecker.
+From PySMT.proofs Require Import Manager_proofs Manager_nf_proofs.
 Import ListNotations.
 
 (* no two ids with the same content; ids are dense 1..n *)
@@ -110,7 +111,52 @@ Theorem C04_normalize_copy : forall addr s1 s2 i s2' j, reachable s1 -> reachabl
   (forall k, valid (table s2) k -> unfold s2' k = unfold s2 k) /\ Inv s2'.
 Proof. exact normalize_copy. Qed.
 Print Assumptions C04_normalize_copy.
+(* [reachable_api s]: s is reached from fresh environments by any history of requests of the public
+   constructors (api_req: a CNode request carries one of the operators and the arity that the
+   create_node-only constructors have; a raw create_node call is not a constructor).
+   The hypothesis [copyable] of C04_normalize_copy is an INVARIANT of such histories: *)
+Theorem C04_constructor_nodes_copyable : forall s i, reachable_api s -> valid (table s) i ->
+  array_free (unfold s i) = true -> copyable (unfold s i).
+Proof. exact constructor_nodes_copyable. Qed.
+Print Assumptions C04_constructor_nodes_copyable.
+(* ... hence, for every array-value-free formula of a reachable source environment: *)
+Theorem C04_normalize_copy_reachable : forall addr s1 s2 i s2' j, reachable_api s1 -> reachable s2 ->
+  valid (table s1) i -> array_free (unfold s1 i) = true ->
+  normalize addr (table s1) i s2 = (s2', Ok j) ->
+  unfold s2' j = unfold s1 i /\
+  (forall k, reach (table s2') j k -> valid (table s2') k) /\
+  (forall k, valid (table s2) k -> unfold s2' k = unfold s2 k) /\ Inv s2'.
+Proof. exact normalize_copy_reachable. Qed.
+Print Assumptions C04_normalize_copy_reachable.
+(* normalize is idempotent, and the copy taken back into the first environment is the original node *)
+Theorem C04_normalize_idempotent : forall addr addr' s1 s2 i s2' j s2'' j', reachable_api s1 -> reachable s2 ->
+  valid (table s1) i -> array_free (unfold s1 i) = true ->
+  normalize addr (table s1) i s2 = (s2', Ok j) -> normalize addr' (table s1) i s2' = (s2'', Ok j') -> j' = j.
+Proof. exact normalize_idempotent. Qed.
+Print Assumptions C04_normalize_idempotent.
+Theorem C04_normalize_round_trip : forall addr addr' s1 s2 i s2' j s1' k, reachable_api s1 -> reachable s2 ->
+  valid (table s1) i -> array_free (unfold s1 i) = true ->
+  normalize addr (table s1) i s2 = (s2', Ok j) -> normalize addr' (table s2') j s1 = (s1', Ok k) -> k = i.
+Proof. exact normalize_round_trip. Qed.
+Print Assumptions C04_normalize_round_trip.
 (* with array values the copy is exact only up to the order of the assignments *)
+(* [peq t t']: t and t' differ at most in the order of the (index, value) pairs of array values
+   (peq_refl | peq_node: children pairwise peq | peq_arr: same default, pairs permuted).
+   For every formula of a reachable source environment whose array values are flat (default, indexes
+   and values contain no array value), the copy is the same tree up to that order: *)
+Theorem C04_normalize_copy_arrays : forall addr s1 s2 i s2' j, reachable_api s1 -> reachable s2 ->
+  valid (table s1) i -> flat_arrays (unfold s1 i) = true ->
+  normalize addr (table s1) i s2 = (s2', Ok j) ->
+  peq (unfold s1 i) (unfold s2' j) /\
+  (forall k, reach (table s2') j k -> valid (table s2') k) /\
+  (forall k, valid (table s2) k -> unfold s2' k = unfold s2 k) /\ Inv s2'.
+Proof. exact normalize_copy_arrays. Qed.
+Print Assumptions C04_normalize_copy_arrays.
+(* peq preserves what constructors and the type checker look at *)
+Theorem C04_peq_tc : forall t t', peq t t' -> tc t = tc t'.
+Proof. exact peq_tc. Qed.
+Print Assumptions C04_peq_tc.
+(* the exact-order clause stays refuted: *)
 Theorem C04_normalize_copy_array_order_refuted :
   exists (h : list (nat * request)) (i j : id),
     let '(w, rps) := wrun addr_id (winit 2) h in
